@@ -180,37 +180,76 @@ def lean_sources():
     return out
 
 
+def _harness(hb, lines, timeout=None):
+    """run the harness on `lines`; -> (ok, stdout_text, problem). Not ok = non-zero exit (abort, stack overflow, signal) or
+    no answer within the time limit (default 60 s + 10 ms per case: the unchanged tree needs about 0.1 ms per case)."""
+    if timeout is None:
+        timeout = float(os.environ.get("VERIF_HARNESS_TIMEOUT", "60")) + 0.01 * len(lines)
+    try:
+        p = subprocess.run([hb], input="".join(lines).encode(), stdout=subprocess.PIPE, stderr=subprocess.PIPE, env=ENV,
+                           timeout=timeout)
+    except subprocess.TimeoutExpired:
+        return False, "", "no answer within %.0f s (hang)" % timeout
+    if p.returncode != 0:
+        return False, "", "harness process died rc=%d: %s" % (p.returncode, p.stderr.decode(errors="replace")[-400:])
+    return True, p.stdout.decode(errors="replace"), ""
+
+
 def run_cases(prop, cases, tag="main", hbin=None, driver=None):
-    """cases: list of case strings without ids. Returns list of dict(verdict fields) aligned with cases."""
+    """cases: list of case strings without ids. Returns list of dict(verdict fields) aligned with cases.
+    A case on which the harness process dies or hangs (catch_unwind cannot contain aborts, stack overflows or loops) is found
+    by bisection over prefixes, reported with status `harness-crash`, and the remaining cases are run without it."""
     os.makedirs(WORK, exist_ok=True)
     base = os.path.join(WORK, "%s.%d.%s" % (prop, os.getpid(), tag))
-    cf, rf, vf = base + ".cases", base + ".impl", base + ".verdict"
-    with open(cf, "w") as f:
-        for i, c in enumerate(cases):
-            f.write("%d %s\n" % (i, c))
-    with open(cf) as fin, open(rf, "w") as fout:
-        p = subprocess.run([hbin or HBIN], stdin=fin, stdout=fout, stderr=subprocess.PIPE, env=ENV)
-    if p.returncode != 0:
-        raise RuntimeError("harness failed rc=%d: %s" % (p.returncode, p.stderr.decode()[-2000:]))
+    rf, vf = base + ".impl", base + ".verdict"
+    hb = hbin or HBIN
+    lines = ["%d %s\n" % (i, c) for i, c in enumerate(cases)]
+    crashed = {}
+    live = list(range(len(cases)))
+    while True:
+        ok, out, problem = _harness(hb, [lines[i] for i in live])
+        if ok:
+            break
+        if len(crashed) >= 5:
+            for i in live:
+                crashed[i] = "not run: more than five cases kill the harness (" + problem + ")"
+            live, out = [], ""
+            break
+        lo, hi = 0, len(live)          # invariant: prefix of length hi fails, prefix of length lo succeeds
+        while hi - lo > 1:
+            mid = (lo + hi) // 2
+            ok2, _, pr2 = _harness(hb, [lines[i] for i in live[:mid]])
+            if ok2:
+                lo = mid
+            else:
+                hi, problem = mid, pr2
+        crashed[live[hi - 1]] = problem
+        del live[hi - 1]
+    with open(rf, "w") as fout:
+        fout.write(out)
     with open(rf) as fin, open(vf, "w") as fout:
         p = subprocess.run([driver or DRIVER, prop], stdin=fin, stdout=fout, stderr=subprocess.PIPE, env=ENV)
     if p.returncode != 0:
         raise RuntimeError("driver failed rc=%d: %s" % (p.returncode, p.stderr.decode()[-2000:]))
     impl = open(rf).read().split("\n")
     verd = open(vf).read().split("\n")
-    res = []
-    for i, c in enumerate(cases):
-        il = impl[i] if i < len(impl) else ""
-        vl = verd[i] if i < len(verd) else ""
+    res = [None] * len(cases)
+    for k, i in enumerate(live):
+        c = cases[i]
+        il = impl[k] if k < len(impl) else ""
+        vl = verd[k] if k < len(verd) else ""
         d = {"case": c, "impl": il.split(" => ", 1)[1] if " => " in il else "", "raw": vl}
         toks = vl.split(" ")
         d["status"] = toks[1] if len(toks) > 1 and "=" not in toks[1] else "verdict"
         for t in toks[1:]:
             if "=" in t:
-                k, v = t.split("=", 1)
-                d[k] = v
-        res.append(d)
-    for fpath in (cf, rf, vf):
+                k2, v = t.split("=", 1)
+                d[k2] = v
+        res[i] = d
+    for i, problem in crashed.items():
+        res[i] = {"case": cases[i], "impl": "CRASH", "raw": "%d harness-crash %s" % (i, problem), "status": "harness-crash",
+                  "crash": problem}
+    for fpath in (rf, vf):
         try:
             os.unlink(fpath)
         except OSError:
